@@ -196,8 +196,9 @@ func FetchType(typ reflect.Type, typMap map[string]reflect.Type) {
 	}
 
 	if typ.Kind() == reflect.Array || typ.Kind() == reflect.Slice {
-		if typ.Elem().Kind() != reflect.Uint8 {
-			// a list type, under its Go name and under its list type name
+		if typ.Elem().Kind() != reflect.Uint8 || typ.Name() != "" {
+			// a list type, under its Go name and under its list type name (the
+			// unnamed []byte is binary data; a named byte-slice type is a list)
 			name := TypeName(typ)
 			if old, ok := typMap[name]; ok && old == typ {
 				// already fetched: a self-referential list type (type T []T) must not be walked again
